@@ -176,6 +176,24 @@ def run(ctx):
         ok = any(isinstance(n, ast.ListComp) and "child_jobs" in src(n.generators[0].iter) and not any(call_name(c) in ("set", "sorted", "dict.fromkeys") for c in calls_in(n)) for n in ast.walk(fn))
         r4.check(ok, f"{m.rel}:{q}:children-with-multiplicity", "child call hashes are not taken from the child list in order and with multiplicity", m.rel, fn.lineno)
 
+    # ---- C07.5 a failing parent records only the children finished so far ---------------------------------
+    r5 = ctx.rule("C07.5", "the child list recorded for a failed job does not depend on which siblings had finished", floor=1)
+    rj = m.func("Scheduler._reject_job_main_thread")
+    filt = [n for n in ast.walk(rj) if isinstance(n, ast.ListComp) and "child_jobs" in src(n.generators[0].iter) and any(src(i).endswith(".call_hash") for i in n.generators[0].ifs)]
+    pm = repo.mod("redun/promise.py")
+    fail_fast = False
+    pf = pm.funcs.get("Promise.all.fail")
+    if pf is not None:
+        fail_fast = any(call_name(c) == "promise.do_reject" for c in calls_in(pf)) and not any("num_done" in src(n) for n in ast.walk(pf))
+    r5.check(
+        not (filt and fail_fast),
+        f"{m.rel}:Scheduler._reject_job_main_thread:children-finished-so-far",
+        "a job is rejected as soon as one child fails (Promise.all rejects on the first rejection) and its call node lists only the children that already have a "
+        "call hash at that moment: siblings still running are omitted (and never recorded), so the failed job's call hash depends on completion order",
+        m.rel,
+        rj.lineno,
+    )
+
     # ---- C07.3 ---------------------------------------------------------------------
     r3 = ctx.rule("C07.3", "uuid/time reach only ids and timestamps; child hashes are sorted before hashing", floor=3)
     hm = repo.mod("redun/hashing.py")
